@@ -124,6 +124,8 @@ pub struct SFlags {
     pub clear: bool,
     pub restart: bool,
     pub partial: bool,
+    /// queries consumed through for_each / count / last / nth as well as through the loop over next
+    pub styles: bool,
     pub o_query: bool,
     pub o_purge: bool,
     pub o_struct: bool,
@@ -160,6 +162,15 @@ const K_Q: u32 = 2;
 const K_CLEAR: u32 = 3;
 const K_RESTART: u32 = 4;
 const TAKE_ALL: u32 = 15;
+/// other ways of consuming an iterator completely / partially: they go through `Iterator` methods that an
+/// implementation may override (fold, count, last, nth), so each must behave like the loop over `next`
+const TAKE_FOLD: u32 = 14; // for_each (built on fold): full result
+const TAKE_COUNT: u32 = 13; // count(): only the number of items is seen
+const TAKE_LAST: u32 = 12; // last(): only the last item is seen
+const TAKE_NTH1: u32 = 11; // nth(1): skips one item, yields the second, rest is dropped unconsumed
+fn take_is_full(take: u32) -> bool {
+    take >= TAKE_LAST
+}
 
 fn op_ins(ri: u8, e: u8) -> u32 {
     (K_INS << 24) | ((ri as u32) << 8) | e as u32
@@ -306,12 +317,28 @@ where
                 let res = guard(|| {
                     let mut got: Vec<SV> = vec![];
                     let mut it = tree.iter_by_range(r, tq);
+                    let mut seen_count: Option<usize> = None;
                     if take == TAKE_ALL {
                         for v in &mut it {
                             got.push(v);
                             if got.len() > 1000 {
                                 break;
                             }
+                        }
+                    } else if take == TAKE_FOLD {
+                        it.for_each(|v| got.push(v));
+                        return (got, seen_count);
+                    } else if take == TAKE_COUNT {
+                        seen_count = Some(it.count());
+                        return (got, seen_count);
+                    } else if take == TAKE_LAST {
+                        if let Some(v) = it.last() {
+                            got.push(v);
+                        }
+                        return (got, seen_count);
+                    } else if take == TAKE_NTH1 {
+                        if let Some(v) = it.nth(1) {
+                            got.push(v);
                         }
                     } else {
                         for _ in 0..take {
@@ -322,13 +349,13 @@ where
                         }
                     }
                     drop(it);
-                    got
+                    (got, seen_count)
                 });
                 ncb = rt::cb_count();
                 o.t = tq;
                 o.model.retain(|m| m.2 >= tq);
                 match res {
-                    Ok(got) => {
+                    Ok((got, seen_count)) => {
                         if inj.is_some() {
                             o.inj_used += 1;
                         }
@@ -337,8 +364,18 @@ where
                         let mut g: Vec<u8> = got.iter().map(|v| v.id).collect();
                         g.sort();
                         cx.evals += 1;
-                        if self.f.o_query {
-                            if take == TAKE_ALL {
+                        if self.f.o_query && take == TAKE_COUNT {
+                            if seen_count != Some(want.len()) {
+                                cx.violate(prop, "query", format!("iter_by_range(range #{ri}, time {tq}).count() = {seen_count:?}, reference says {} items {want:?}", want.len()));
+                            }
+                        } else if self.f.o_query && (take == TAKE_LAST || take == TAKE_NTH1) {
+                            let need = if take == TAKE_LAST { 1 } else { 2 };
+                            let ok = if want.len() >= need { g.len() == 1 && want.contains(&g[0]) } else { g.is_empty() };
+                            if !ok {
+                                cx.violate(prop, "partial-query", format!("{} of iter_by_range(range #{ri}, time {tq}) = {g:?}, full reference answer {want:?}", if take == TAKE_LAST { "last()" } else { "nth(1)" }));
+                            }
+                        } else if self.f.o_query {
+                            if take == TAKE_ALL || take == TAKE_FOLD {
                                 if g != want {
                                     cx.violate(prop, "query", format!("iter_by_range(range #{ri} {:?}, time {tq}) yielded ids {g:?}, reference says {want:?}", self.ranges[ri as usize]));
                                 }
@@ -358,7 +395,7 @@ where
                                 }
                             }
                         }
-                        if self.f.o_purge && take == TAKE_ALL && ri == 0 {
+                        if self.f.o_purge && take_is_full(take) && ri == 0 {
                             cx.count("whole_domain_queries_checked");
                             if let Err(e) = self.structure(&o.tree, Some((&o.model, tq))) {
                                 cx.violate(prop, "purge", e);
@@ -422,6 +459,7 @@ where
         self.prop
     }
     fn fresh(&self, cx: &mut Cx) -> Option<SObj<R>> {
+        rt::scrub_stack();
         rt::cb_reset(None);
         match guard(|| SegExpTree::<R, u8, SV>::new(SegRange { min: R::from_i64(self.lo), max: R::from_i64(self.hi) })) {
             Ok(Some(tree)) => Some(SObj { tree, model: vec![], t: 0, inj_used: 0 }),
@@ -454,6 +492,11 @@ where
                 out.push(op_q(ri, t, TAKE_ALL));
                 if self.f.partial {
                     for k in 0..=2 {
+                        out.push(op_q(ri, t, k));
+                    }
+                }
+                if self.f.partial || self.f.styles {
+                    for k in [TAKE_FOLD, TAKE_COUNT, TAKE_LAST, TAKE_NTH1] {
                         out.push(op_q(ri, t, k));
                     }
                 }
@@ -492,6 +535,9 @@ where
                 out.extend_from_slice(&m.to_le_bytes());
             }
         }
+    }
+    fn raw_words(&self, o: &SObj<R>, out: &mut Vec<u64>) {
+        rt::raw_words_of(&o.tree, out);
     }
     fn nontrivial(&self, o: &SObj<R>) -> bool {
         o.tree.verif_chunks().iter().any(|c| !c.is_empty())
@@ -571,7 +617,7 @@ where
             K_INS => format!("Ins(r{},{})", (o >> 8) & 0xff, o & 0xff),
             K_Q => {
                 let take = o & 0xf;
-                format!("Q(r{},{},{})", (o >> 8) & 0xff, (o >> 4) & 0xf, if take == TAKE_ALL { "all".to_string() } else { take.to_string() })
+                format!("Q(r{},{},{})", (o >> 8) & 0xff, (o >> 4) & 0xf, match take { TAKE_ALL => "all".to_string(), TAKE_FOLD => "fold".to_string(), TAKE_COUNT => "count".to_string(), TAKE_LAST => "last".to_string(), TAKE_NTH1 => "nth1".to_string(), _ => take.to_string() })
             }
             K_CLEAR => "Clear()".into(),
             K_RESTART => "ClearRestart()".into(),
@@ -584,7 +630,7 @@ where
         Some(match name {
             "Ins" => op_ins(args.first()?.trim_start_matches('r').parse().ok()?, args.get(1)?.parse().ok()?),
             "Q" => {
-                let take = if *args.get(2)? == "all" { TAKE_ALL } else { args.get(2)?.parse().ok()? };
+                let take = match *args.get(2)? { "all" => TAKE_ALL, "fold" => TAKE_FOLD, "count" => TAKE_COUNT, "last" => TAKE_LAST, "nth1" => TAKE_NTH1, x => x.parse().ok()? };
                 op_q(args.first()?.trim_start_matches('r').parse().ok()?, args.get(1)?.parse().ok()?, take)
             }
             "Clear" => K_CLEAR << 24,
@@ -606,6 +652,7 @@ pub fn dispatch(a: &Args, replay: Option<(Vec<String>, String)>) -> ! {
         clear: a.flag("clear"),
         restart: a.flag("restart"),
         partial: a.flag("partial"),
+        styles: a.flag("styles"),
         o_query: a.flag("o_query"),
         o_purge: a.flag("o_purge"),
         o_struct: a.flag("o_struct"),
